@@ -129,6 +129,36 @@ pub fn run(ctx: &Ctx) -> i32 {
         if ti % 173 == (ctx.seed as usize % 173) { acc.sample(json!({"tree": m.show(), "target_subsets": (1u32 << k) - 1, "plus_absent": true})) }
         acc
     }).reduce(Acc::new, Acc::merge);
+    let wide = families::wide_tier(th);
+    let accw = wide.par_iter().enumerate().with_max_len(1).map(|(wi, (wn, m))| {
+        let mut acc = Acc::new();
+        let Ok(e) = catch(|| bind::build(m, 0)) else { return acc };
+        let ds = m.distinct_digests(); let root = m.digest();
+        let picks: Vec<usize> = (0..ds.len()).filter(|i| *i < 5 || i % 71 == 0 || *i + 2 >= ds.len()).collect();
+        let mut sets: Vec<Vec<D>> = picks.iter().map(|i| vec![ds[*i]]).collect();
+        for w in picks.windows(2) { sets.push(vec![ds[w[0]], ds[w[1]]]) }
+        sets.push(vec![ds[ds.len() - 1], families::absent_digest()]);
+        for tv in sets {
+            acc.inc("proof_requests");
+            let t: HashSet<D> = tv.iter().cloned().collect(); let tset = bind::dset(&tv);
+            let absent = tv.contains(&families::absent_digest());
+            let cid = || format!("wide/{wn}/{}", tv.iter().map(|d| hex::encode(&d[..3])).collect::<Vec<_>>().join("+"));
+            let (mut p, mut a) = (HashSet::new(), HashSet::new()); paths(m, &t, &mut vec![], &mut p, &mut a);
+            match catch(|| e.proof_contains_set(&tset)) {
+                Err(pn) => acc.viol(format!("C12|panic|{}", pn.site), pn.msg.clone(), cid(), json!({"shape": wn})),
+                Ok(None) => if !absent { acc.viol("C12|complete|wide|no-proof", "no proof for present targets on a wide shape", cid(), json!({"shape": wn})) },
+                Ok(Some(proof)) => {
+                    if absent { acc.viol("C12|complete|wide|proof-for-absent-target", "proof for an absent target", cid(), json!({"shape": wn})); continue }
+                    let po = bind::observe(&proof);
+                    if po.digest() != root || !bind::elided_from_digest(root).confirm_contains_set(&tset, &proof) { acc.viol("C12|complete|wide|own-proof-rejected", "a produced proof has another root digest or is rejected for its own targets", cid(), json!({"shape": wn})) }
+                    if let Some((path, what)) = check_minimal(&po, &t, &p, &a, "") { acc.viol(format!("C12|minimal|wide|{what}"), format!("proof discloses more than the paths at {path}"), cid(), json!({"shape": wn})) }
+                    acc.nontrivial(&("wide", wi, tv.len()));
+                }
+            }
+        }
+        acc
+    }).reduce(Acc::new, Acc::merge);
+    let acc = acc.merge(accw);
     let acc_obs = obscured_sources.par_iter().enumerate().with_max_len(1).map(|(si, (m, e))| {
         let mut acc = Acc::new();
         let ds = m.distinct_digests(); let k = ds.len().min(8);
